@@ -15,7 +15,12 @@ fi
 S=$(mktemp -d /tmp/w2c2-replay-seeds.XXXXXX); trap 'rm -rf "$S"' EXIT
 # run a frozen snapshot of the machinery (a replay takes long; edits under /verif meanwhile must not leak into it)
 SNAP="$S/verif"; mkdir -p "$SNAP"; cp -r /verif/sa /verif/check /verif/known_findings.json /verif/properties.jsonl "$SNAP/"; ln -s /verif/.cache "$SNAP/.cache"
-ls -d /verif/seeded/*${1}*/ | xargs -P ${JOBS:-8} -I{} sh -c '/verif/tools/replay_seeds.sh --one '"$SNAP"' {} > '"$S"'/o.$$ 2>&1; cat '"$S"'/o.$$; rm -f '"$S"'/o.$$' > "$S/log"
+# one result file per seed (named after the seed), concatenated afterwards: no line can get lost between concurrent jobs
+mkdir -p "$S/res"
+ls -d /verif/seeded/*${1}*/ | xargs -P ${JOBS:-8} -I{} sh -c '/verif/tools/replay_seeds.sh --one '"$SNAP"' {} > '"$S"'/res/$(basename {}) 2>&1'
+cat "$S"/res/* > "$S/log"
+n_seeds=$(ls -d /verif/seeded/*${1}*/ | wc -l); n_res=$(ls "$S/res" | wc -l)
+[ "$n_seeds" -eq "$n_res" ] || echo "WARNING: $n_seeds seeds, $n_res results"
 grep -v '^DETECTED' "$S/log"
 ok=$(grep -c '^DETECTED' "$S/log"); bad=$(grep -c '^NOT DETECTED' "$S/log")
 echo "seeded changes detected: $ok, not detected: $bad"
